@@ -33,3 +33,8 @@ def obligations(tier):
     obs += lex_obs("C01", "c_kw", ["col_later", "col_after_sized", "option_pos", "option_pos2", "after_not", "after_default"], tier, "lex")
     obs += lex_obs("C01", "c_name", ["col_first", "col_later", "col_after_sized"], tier, "lexname")
     return obs
+
+
+def solver_queries(tier, scratch):
+    from vf import rx_queries as rq
+    return rq.identifier_queries(scratch, "C01", 16 if tier == "quick" else 40)
